@@ -198,6 +198,7 @@ ITEMS = [
          "_unsafe_index_to_lit": {"params": {"index": TList(TOpt(INT))}, "lean": "index_to_lit"},
          "__call__": {"params": {"pattern": TList(TOpt(INT))}, "vararg": "pattern"},
          "to_index": {"params": {"lit": INT}},
+         "__getitem__": {"params": {"choices": INT}, "lean": "getitem"},
      }},
     # ---- C15: closed-form DAG constructions: (number of vertices, the add_edge calls in order)
     {"file": "cnfgen/graphs.py", "function": "dag_path", "property": "C15", "params": {"length": INT}},
@@ -224,7 +225,12 @@ ITEMS = [
              {"lean": "add_variable_group_unary", "params": {"vg": TObj("UnaryMappingVariables")}},
              {"lean": "add_variable_group_binary", "params": {"vg": TObj("BinaryMappingVariables")}},
              {"lean": "add_variable_group_block", "params": {"vg": TObj("BlockOfVariables")}},
+             {"lean": "add_variable_group_word", "params": {"vg": TObj("WordOfIndicesVariables")}},
          ],
+         "new_combinations": {"params": {"n": INT, "k": INT, "label": ERASED}},
+         "new_combinations_with_replacement": {"params": {"n": INT, "k": INT, "label": ERASED}},
+         "new_permutations": {"params": {"n": INT, "k": TOpt(INT), "label": ERASED}},
+         "new_words": {"params": {"n": INT, "k": INT, "label": ERASED}},
          "new_block": {"params": {"ranges": TList(INT), "label": ERASED}, "vararg": "ranges"},
          "new_binary_mapping": {"params": {"n": INT, "m": INT, "label": ERASED}},
          "new_mapping": {"params": {"n": INT, "m": INT, "label": ERASED}},
@@ -248,6 +254,10 @@ ITEMS = [
      "params": {"digraph": TAbs("AbsDiGraph"), "formula_class": TEffectClass("Formula")}},
     {"file": "cnfgen/families/ramsey.py", "function": "VanDerWaerden", "property": "C03",
      "params": {"N": INT, "k1": INT, "k2": INT, "ks": TList(INT), "formula_class": TEffectClass("Formula")}, "vararg": "ks"},
+    {"file": "cnfgen/families/ramsey.py", "function": "RamseyNumber", "property": "C03",
+     "params": {"s": INT, "k": INT, "N": INT, "formula_class": TEffectClass("Formula")}},
+    {"file": "cnfgen/families/counting.py", "function": "CountingPrinciple", "property": "C01",
+     "params": {"M": INT, "p": INT, "formula_class": TEffectClass("Formula")}},
     {"file": "cnfgen/families/ramsey.py", "function": "PythagoreanTriples", "property": "C03",
      "params": {"N": INT, "formula_class": TEffectClass("Formula")}},
 ]
